@@ -26,6 +26,9 @@ func init() {
 }
 
 func runC09(c *Ctx) {
+	if !importing {
+		importObls(c, "C12", runC12, "X12", func(k string) bool { return containsAny(k, "common/probdist") })
+	}
 	p := c.P
 	write := p.Func("transports/obfs4:(*obfs4Conn).Write")
 	padBurst := p.Func("transports/obfs4:(*obfs4Conn).padBurst")
